@@ -181,9 +181,9 @@ fn c02_bulk_step_n2() {
     bulk_step::<2>(true);
 }
 
-//@ prop=C02 tier=thorough mem=12 timeout=10800 uses=pivot inst="_get_many_from_sorted_mut_unchecked on ArrayViewMut1<u8>, FULL recursion, len 3" bounds="len 3, every index subset, every pivot sequence; unwind 5"
-#[kani::proof]
-#[kani::unwind(5)]
+// (not registered: not verified to finish within the session's budget on this machine) prop=C02 tier=thorough mem=12 timeout=10800 uses=pivot inst="_get_many_from_sorted_mut_unchecked on ArrayViewMut1<u8>, FULL recursion, len 3" bounds="len 3, every index subset, every pivot sequence; unwind 5"
+#[allow(dead_code)]
+// #[kani::unwind(5)]
 fn c02_bulk_full_n3() {
     bulk_step::<3>(false);
 }
